@@ -136,7 +136,12 @@ func (e *CallExpr) String() string {
 		args = append(args, e.String())
 	}
 	if len(args) > 0 && e.Ellipsis.IsValid() {
-		args[len(args)-1] = args[len(args)-1] + "..."
+		sep := ""
+		if _, ok := e.Args[len(e.Args)-1].(*IntLit); ok {
+			// "1..." would be scanned as the float "1." followed by ".."
+			sep = " "
+		}
+		args[len(args)-1] = args[len(args)-1] + sep + "..."
 	}
 	return e.Func.String() + "(" + strings.Join(args, ", ") + ")"
 }
@@ -498,6 +503,10 @@ func (e *SelectorExpr) End() Pos {
 }
 
 func (e *SelectorExpr) String() string {
+	if _, ok := e.Expr.(*IntLit); ok {
+		// "1.a" would be scanned as the float "1." followed by "a"
+		return e.Expr.String() + " ." + e.Sel.String()
+	}
 	return e.Expr.String() + "." + e.Sel.String()
 }
 
